@@ -14,7 +14,7 @@ import (
 func init() {
 	register(&propSpec{
 		id: "C13", title: "Generated SQL is injection-free", run: runC13,
-		notCovered:  "behaviour of the generated statements on a real engine, the value-level claim 'reads or changes nothing else', semantic adequacy of the column-type grammar beyond the forbidden-character set (it admits e.g. 'TEXT(1), extra INT')",
+		notCovered:  "behaviour of the generated statements on a real engine, the value-level claim 'reads or changes nothing else', semantic adequacy of the column-type grammar beyond the forbidden-character set and the parenthesis/comma structure (which words may follow a type is not judged)",
 		assumptions: []string{"heap is field-insensitive: every struct field load is tainted (so builders must re-validate what they stored)", "values passed as bound parameters (the variadic args of the sinks) are not SQL text", "sanitisers are the functions of pkg/database named [Ss]anitize* returning (string|[]string, error); each is itself checked by C13-R3"},
 	})
 }
@@ -220,7 +220,7 @@ func runC13(c *Ctx) {
 	}
 
 	// ---- R3 sanitiser strength
-	c.rule("C13-R3", "RGX/MPT: each sanitiser validates its input with a package-level regexp whose literal is anchored ^…$ and whose language contains none of the characters \" ' ` \\ ; - / * NUL newline (identifier patterns additionally ⊆ [A-Za-z0-9_] with a non-digit first character); a non-empty result is returned only on the pattern's match edge; the returned text is built from the validated value (not from another variable)")
+	c.rule("C13-R3", "RGX/MPT: each sanitiser validates its input with a package-level regexp whose literal is anchored ^…$ and whose language contains none of the characters \" ' ` \\ ; - / * NUL newline (identifier patterns additionally ⊆ [A-Za-z0-9_] with a non-digit first character) and is included (product of the pattern's NFA with a 6-state automaton) in the fragments with balanced parentheses and no comma outside them; a non-empty result is returned only on the pattern's match edge; the returned text is built from the validated value (not from another variable)")
 	forbidden := "\"'`\\;-/*\x00\n\r"
 	for _, fn := range sanFns {
 		key := fnKey(fn)
@@ -259,6 +259,10 @@ func runC13(c *Ctx) {
 		for _, g := range guards {
 			ok, why := regexSafe(g.re, forbidden, isIdent)
 			c.ob("C13-R3", key+"#pattern-language", g.call.Pos(), ok, "pattern "+g.re+" "+why)
+			// structure: the validated text is spliced into a parenthesised, comma-separated list
+			// (CREATE TABLE t (name TYPE, …); column lists): language inclusion in the fragment automaton
+			inc, why2 := regexIncludedIn(g.re, ddlFragmentDFA())
+			c.ob("C13-R3", key+"#pattern-structure", g.call.Pos(), inc, "pattern "+g.re+" "+why2)
 		}
 		// non-empty return only on match edge
 		n := 0
@@ -346,6 +350,12 @@ func runC13(c *Ctx) {
 		}
 	}
 	c.floor("C13-R4", 15)
+
+	// ---- R5 no word of a tokenised text is dropped unvalidated
+	c.rule("C13-R5", "MPT: where a function of pkg/database cuts a text into words (strings.Fields/Split) and reads them by fixed position only, every path from the cut to a success return crosses an edge that bounds the number of words by the number read (len(parts) > k answers an error): no part of a stored column/direction text is accepted without having been validated")
+	nTok := tokenDropAudit(c, "C13-R5", []string{dbPkg})
+	c.info("C13-R5", "tokenisations-examined", token.NoPos, itoa(nTok)+" positional tokenisations in "+dbPkg)
+	c.floor("C13-R5", 1)
 }
 
 func shortAll(xs []string) []string {
@@ -531,4 +541,189 @@ func allowListNames(c *Ctx) map[string]bool {
 		}
 	})
 	return out
+}
+
+// tokenDropAudit (C13-R5): a function that cuts a text into words (strings.Fields / strings.Split) and reads the
+// words by fixed position must reject a text with more words than it reads - otherwise the extra words are
+// validated by nobody and silently dropped (the caller's `DESC ; DROP TABLE users` passes as `DESC`). Functions
+// that hand the whole text on (the column-type validators return their parameter) are not concerned: there the
+// words only feed a test. Returns the number of tokenisations examined.
+func tokenDropAudit(c *Ctx, rule string, rels []string) int {
+	n := 0
+	for _, rel := range rels {
+		for _, fn := range c.srcFuncs(rel) {
+			eachInstr(fn, func(_ *ssa.BasicBlock, _ int, ins ssa.Instruction) {
+				call, ok := ins.(*ssa.Call)
+				if !ok {
+					return
+				}
+				switch callName(call) {
+				case "strings.Fields", "strings.Split", "strings.FieldsFunc":
+				default:
+					return
+				}
+				maxIdx := int64(-1)
+				positional := true
+				var lens []ssa.Value
+				for _, r := range refs(call) {
+					switch x := r.(type) {
+					case *ssa.IndexAddr:
+						if k, ok := constInt(x.Index); ok {
+							if k > maxIdx {
+								maxIdx = k
+							}
+						} else {
+							positional = false
+						}
+					case *ssa.Call:
+						if callName(x) == "builtin.len" {
+							lens = append(lens, x)
+						} else {
+							positional = false
+						}
+					case *ssa.DebugRef:
+					default:
+						positional = false
+					}
+				}
+				if !positional || maxIdx < 0 {
+					return
+				}
+				// the whole text is passed on by a success return: nothing is dropped
+				src := call.Call.Args[0]
+				root := src
+				for {
+					if cl, ok := root.(*ssa.Call); ok && strings.HasPrefix(callName(cl), "strings.") && len(cl.Call.Args) > 0 {
+						root = cl.Call.Args[0]
+						continue
+					}
+					break
+				}
+				passesWhole := false
+				eachInstr(fn, func(_ *ssa.BasicBlock, _ int, i2 ssa.Instruction) {
+					ret, ok := i2.(*ssa.Return)
+					if !ok || len(ret.Results) == 0 {
+						return
+					}
+					rv := retVals(ret)
+					if len(rv) > 1 && !isNilConst(stripConv(rv[len(rv)-1])) {
+						return
+					}
+					if isStringType(rv[0].Type()) && derivesAvoiding(rv[0], root, call) {
+						passesWhole = true
+					}
+				})
+				if passesWhole {
+					return
+				}
+				n++
+				bounded := func(b *ssa.BasicBlock, si int) bool {
+					iff := ifOf(b)
+					if iff == nil {
+						return false
+					}
+					bo, ok := iff.Cond.(*ssa.BinOp)
+					if !ok {
+						return false
+					}
+					x, y, op := bo.X, bo.Y, bo.Op
+					isLen := func(v ssa.Value) bool {
+						for _, l := range lens {
+							if v == l {
+								return true
+							}
+						}
+						return false
+					}
+					if isLen(y) {
+						x, y = y, x
+						switch op {
+						case token.LSS:
+							op = token.GTR
+						case token.LEQ:
+							op = token.GEQ
+						case token.GTR:
+							op = token.LSS
+						case token.GEQ:
+							op = token.LEQ
+						}
+					}
+					if !isLen(x) {
+						return false
+					}
+					k, ok := constInt(y)
+					if !ok {
+						return false
+					}
+					lim := maxIdx + 1 // at most this many words are read
+					truth := si == 0
+					switch op {
+					case token.GTR: // len > k ; false edge => len <= k
+						return !truth && k <= lim
+					case token.GEQ: // false edge => len <= k-1
+						return !truth && k-1 <= lim
+					case token.LEQ:
+						return truth && k <= lim
+					case token.LSS:
+						return truth && k-1 <= lim
+					case token.EQL:
+						return truth && k <= lim
+					case token.NEQ:
+						return !truth && k <= lim
+					}
+					return false
+				}
+				q := &pathQuery{fn: fn, cutEdge: bounded, target: func(x ssa.Instruction) bool {
+					ret, ok := x.(*ssa.Return)
+					if !ok {
+						return false
+					}
+					rv := retVals(ret)
+					if len(rv) == 0 {
+						return true
+					}
+					last := rv[len(rv)-1]
+					if isErrorType(last.Type()) {
+						return isNilConst(stripConv(last))
+					}
+					return true
+				}}
+				hit, path := q.after(call)
+				c.ob(rule, fnKey(fn)+"#words-beyond-"+itoa(int(maxIdx+1))+"-rejected", call.Pos(), hit == nil,
+					"the text is cut into words and only the first "+itoa(int(maxIdx+1))+" are read and validated; a success return is reachable without a test that there are no more: extra words are accepted and silently dropped", c.blockPath(path)...)
+			})
+		}
+	}
+	return n
+}
+
+// derivesAvoiding: v's backward slice reaches root without going through `avoid`.
+func derivesAvoiding(v, root, avoid ssa.Value) bool {
+	return derivesFrom(v, func(x ssa.Value) bool {
+		return x == root && x != avoid
+	}) && !onlyThrough(v, root, avoid)
+}
+
+// onlyThrough: every backward route from v to root passes through `avoid` (checked by removing avoid).
+func onlyThrough(v, root, avoid ssa.Value) bool {
+	seen := map[ssa.Value]bool{avoid: true}
+	var walk func(x ssa.Value, d int) bool
+	walk = func(x ssa.Value, d int) bool {
+		if x == nil || seen[x] || d > 40 {
+			return false
+		}
+		seen[x] = true
+		if x == root {
+			return true
+		}
+		if in, ok := x.(ssa.Instruction); ok {
+			for _, op := range in.Operands(nil) {
+				if *op != nil && walk(*op, d+1) {
+					return true
+				}
+			}
+		}
+		return false
+	}
+	return !walk(v, 0)
 }
